@@ -43,7 +43,7 @@ def env_offline():
     return e
 
 
-def codegen(crate_dir, name, log):
+def codegen(crate_dir, name, log, kani_args=()):
     """Compile the harness crate with kani-compiler; return {pretty_name: metadata}."""
     tdir = os.path.join(BUILD, name)
     os.makedirs(tdir, exist_ok=True)
@@ -56,7 +56,7 @@ def codegen(crate_dir, name, log):
         shutil.rmtree(d, ignore_errors=True)
     for f in glob.glob(os.path.join(tdir, "kani/x86_64-unknown-linux-gnu/debug/build/*/*")):
         shutil.rmtree(f, ignore_errors=True)
-    cmd = ["cargo", "kani", "--target-dir", tdir, "--only-codegen"]
+    cmd = ["cargo", "kani", "--target-dir", tdir, "--only-codegen"] + list(kani_args)
     p = subprocess.run(cmd, cwd=crate_dir, env=env_offline(), stdout=subprocess.PIPE,
                        stderr=subprocess.STDOUT, text=True)
     open(log, "w").write(p.stdout)
@@ -108,11 +108,35 @@ def list_loops(goto):
     return loops
 
 
+def list_functions(goto):
+    """[(mangled, pretty)] of all goto functions (for recursion bounds)."""
+    p = subprocess.run(["goto-instrument", "--list-goto-functions", goto], stdout=subprocess.PIPE,
+                       stderr=subprocess.DEVNULL, text=True)
+    out = []
+    for line in p.stdout.splitlines():
+        m = re.match(r"^(.*) /\* (\S+) \*/\s*$", line)
+        if m:
+            out.append((m.group(2), m.group(1)))
+    return out
+
+
 def unwindset_for(goto, classes):
-    """classes: list of (regex over '<loop id> <function>', bound). First match wins."""
+    """classes: list of (regex over '<loop id> <function>', bound). First match wins.
+    A regex starting with 'rec:' bounds *recursion* of the functions whose pretty name matches
+    (CBMC honours `--unwindset <function>:k` for recursion and emits a recursion unwinding
+    assertion)."""
     loops = list_loops(goto)
     sel = []
     used = {}
+    rec = [(rx[4:], b) for rx, b in classes if rx.startswith("rec:")]
+    classes = [(rx, b) for rx, b in classes if not rx.startswith("rec:")]
+    if rec:
+        for mangled, pretty in list_functions(goto):
+            for rx, bound in rec:
+                if re.search(rx, pretty):
+                    sel.append("%s:%d" % (mangled, bound))
+                    used["rec:" + rx] = used.get("rec:" + rx, 0) + 1
+                    break
     for lid, fn in loops:
         key = lid + " " + fn
         for rx, bound in classes:
